@@ -542,3 +542,96 @@ B('c16i_response_alias_rebound_before_save', ['C16'], 'R16.d',
              '        cookie.save_cookie(out, **save_cookie_kwargs)\n        return response\n'))
 T('c16i_response_alias_saved_and_returned', ['C16'],
   (CK, _RET, '        out = response\n        cookie.save_cookie(out, **save_cookie_kwargs)\n        return out\n'))
+
+# ---------------------------------------------------------------- R16.d: "no _expires entry" through one lookup with a sentinel default
+_SENT = (CK, 'NOW = \'now\'\n', 'NOW = \'now\'\n_MISSING = object()\n')
+_SAVE_SENT = ("        if expires is not _MISSING:\n            save_cookie_kwargs['expires'] = expires\n"
+              "        cookie.save_cookie(response, **save_cookie_kwargs)\n")
+_STAMP_SENT = ("        has_lifetime = self.expiry != NEVER and self.expiry != SESSION\n"
+               "        expires = cookie.get('_expires', _MISSING)\n"
+               "        if has_lifetime and expires is _MISSING:\n"
+               "            expires = cookie['_expires'] = time.time() + self.expiry\n")
+T('c16i_stamp_sentinel_lookup', ['C16'], _SENT, (CK, _STAMP, _STAMP_SENT), (CK, _SAVE, _SAVE_SENT))
+T('c16i_stamp_sentinel_inline_reversed', ['C16'], _SENT,
+  (CK, _STAMP, "        if self.expiry not in (NEVER, SESSION) and _MISSING is cookie.get('_expires', _MISSING):\n"
+               "            cookie['_expires'] = time.time() + self.expiry\n"))
+T('c16i_stamp_sentinel_guard_clause', ['C16'], _SENT,
+  (CK, _STAMP, "        current = cookie.get('_expires', _MISSING)\n        if current is not _MISSING:\n            pass\n"
+               "        elif self.expiry != NEVER and self.expiry != SESSION:\n            cookie['_expires'] = time.time() + self.expiry\n"))
+B('c16i_stamp_sentinel_lookup_before_endpoint', ['C16'], 'R16.d', _SENT,
+  (CK, _NEXT + _STAMP, "        expires = cookie.get('_expires', _MISSING)\n" + _NEXT + _STAMP_SENT.replace("        expires = cookie.get('_expires', _MISSING)\n", '')),
+  (CK, _SAVE, _SAVE_SENT))
+B('c16i_stamp_sentinel_wrong_polarity', ['C16'], 'R16.d', _SENT,
+  (CK, _STAMP, _STAMP_SENT.replace('and expires is _MISSING', 'and expires is not _MISSING')), (CK, _SAVE, _SAVE_SENT))
+B('c16i_stamp_sentinel_other_key', ['C16'], 'R16.d', _SENT,
+  (CK, _STAMP, _STAMP_SENT.replace("cookie.get('_expires', _MISSING)", "cookie.get('expires', _MISSING)")), (CK, _SAVE, _SAVE_SENT))
+B('c16i_stamp_lookup_default_none', ['C16'], 'R16.d',
+  (CK, _STAMP, "        if self.expiry != NEVER and self.expiry != SESSION and cookie.get('_expires') is None:\n"
+               "            cookie['_expires'] = time.time() + self.expiry\n"))
+B('c16i_stamp_sentinel_rebound', ['C16'], 'R16.d',
+  (CK, 'NOW = \'now\'\n', 'NOW = \'now\'\n_MISSING = object()\n_MISSING = None\n'),
+  (CK, _STAMP, _STAMP_SENT), (CK, _SAVE, _SAVE_SENT))
+B('c16i_stamp_sentinel_other_default', ['C16'], 'R16.d', _SENT,
+  (CK, _STAMP, _STAMP_SENT.replace("cookie.get('_expires', _MISSING)", "cookie.get('_expires', NOW)")), (CK, _SAVE, _SAVE_SENT))
+# ... and the membership test, when its outcome is kept in a flag: it has to be taken after the endpoint ran
+T('c16i_absence_flag_after_endpoint', ['C16'],
+  (CK, _STAMP, "        unstamped = '_expires' not in cookie\n        if self.expiry != NEVER and self.expiry != SESSION and unstamped:\n"
+               "            cookie['_expires'] = time.time() + self.expiry\n"))
+B('c16i_absence_flag_before_endpoint', ['C16'], 'R16.d',
+  (CK, _NEXT + _STAMP, "        unstamped = '_expires' not in cookie\n" + _NEXT +
+       "        if self.expiry != NEVER and self.expiry != SESSION and unstamped:\n            cookie['_expires'] = time.time() + self.expiry\n"))
+B('c16i_absence_flag_before_hook', ['C16'], 'R16.d',
+  (CK, _STAMP, "        unstamped = '_expires' not in cookie\n        self.after_endpoint(cookie, response)\n"
+               "        if self.expiry != NEVER and self.expiry != SESSION and unstamped:\n            cookie['_expires'] = time.time() + self.expiry\n"),
+  (CK, '    def _get_random(self):\n', "    def after_endpoint(self, cookie, response):\n        pass\n\n    def _get_random(self):\n"))
+
+# ---------------------------------------------------------------- the cookie class (or its codec) lives in another module and is imported back
+_CORE = 'clastic/middleware/core.py'
+_CORE_ANCHOR = "_INNER_NAME = 'next'\n"
+_DEP_IMPORT = 'from secure_cookie.cookie import SecureCookie, UnquoteError\n'
+_JC_CLASS = ("class JSONCookie(SecureCookie):\n    serialization_method = json\n\n    @classmethod\n    def quote(cls, value):\n" + _QUOTE +
+             "        ret = b''.join(base64.b64encode(ret).splitlines()).strip()\n        return ret\n\n    @classmethod\n    def unquote(cls, value):\n" +
+             _UNQUOTE + "\n\n    @classmethod\n    def unserialize(cls, string, secret_key):\n" + _UNSER + "\n\n"
+             "    def set_expires(self, epoch_time=NOW):\n        \"\"\"\n        epoch_time: Unix timestamp of the cookie expiry.\n        \"\"\"\n"
+             "        if epoch_time == NOW:\n            epoch_time = 123456  # a day and a half after the epoch (long ago)\n"
+             "        self['_expires'] = epoch_time\n\n\n")
+
+
+def _moved(dep_import=_DEP_IMPORT, cls_text=_JC_CLASS, keep_dep_import=False):
+    return ((CK, _JC_CLASS, ''),
+            (CK, _DEP_IMPORT + '\nfrom .core import Middleware\n', (_DEP_IMPORT if keep_dep_import else '') + '\nfrom .core import Middleware, JSONCookie\n'),
+            (_CORE, _CORE_ANCHOR, _CORE_ANCHOR + "NOW = 'now'\n\nimport json\nimport base64\n" + dep_import + '\n\n' + cls_text))
+
+
+T('c16i_class_moved_to_sibling_module', ['C16'], *_moved())
+T('c16i_class_moved_dependency_alias', ['C16'],
+  *_moved(dep_import='from secure_cookie.cookie import SecureCookie\nfrom secure_cookie.cookie import UnquoteError as _BadPayload\n',
+          cls_text=_JC_CLASS.replace('raise UnquoteError()', 'raise _BadPayload()')))
+B('c16i_moved_class_own_unquote_error', ['C16'], 'R16.b',
+  *_moved(dep_import='from secure_cookie.cookie import SecureCookie\n\n\nclass UnquoteError(Exception):\n    pass\n', keep_dep_import=True))
+B('c16i_moved_class_raw_unicode', ['C16'], 'R16.b',
+  *_moved(cls_text=_JC_CLASS.replace('dumps(value)', 'dumps(value, ensure_ascii=False)')))
+B('c16i_moved_class_own_decode_unguarded', ['C16'], 'R16.a',
+  *_moved(cls_text=_JC_CLASS.replace("        string = string.strip('\"')  # this", "        string = string.decode('ascii').strip('\"')  # this")))
+B('c16i_unquote_error_alias_of_other_class', ['C16'], 'R16.b',
+  (CK, _DEP_IMPORT, 'from secure_cookie.cookie import SecureCookie\n\nUnquoteError = ValueError\n'))
+B('c16i_unquote_error_local_subclass_of_exception', ['C16'], 'R16.b',
+  (CK, _DEP_IMPORT, 'from secure_cookie.cookie import SecureCookie\n\n\nclass UnquoteError(Exception):\n    pass\n'))
+# the codec half only: a mixin in another module
+_CODEC = ("class _JSONCodec(object):\n    serialization_method = json\n\n    @classmethod\n    def quote(cls, value):\n" + _QUOTE +
+          "        ret = b''.join(base64.b64encode(ret).splitlines()).strip()\n        return ret\n\n    @classmethod\n    def unquote(cls, value):\n" +
+          _UNQUOTE + "\n\n\n")
+_JC_HEAD = _JC_CLASS[:_JC_CLASS.index('    @classmethod\n    def unserialize')]
+
+
+def _codec_moved(dep_import='from secure_cookie.cookie import UnquoteError\n', codec=_CODEC):
+    return ((CK, _JC_HEAD, 'class JSONCookie(_JSONCodec, SecureCookie):\n\n'),
+            (CK, '\nfrom .core import Middleware\n', '\nfrom .core import Middleware, _JSONCodec\n'),
+            (_CORE, _CORE_ANCHOR, _CORE_ANCHOR + "\nimport json\nimport base64\n" + dep_import + '\n\n' + codec))
+
+
+T('c16i_codec_mixin_in_sibling_module', ['C16'], *_codec_moved())
+B('c16i_codec_mixin_in_sibling_module_own_error', ['C16'], 'R16.b',
+  *_codec_moved(dep_import='\n\nclass UnquoteError(ValueError):\n    pass\n'))
+B('c16i_codec_mixin_in_sibling_module_charset', ['C16'], 'R16.b',
+  *_codec_moved(codec=_CODEC.replace("value.decode('utf8')", "value.decode('utf-16')")))
